@@ -44,9 +44,17 @@ def enc(n):
 
 
 class Gen:
-    def __init__(self, rng, nconstr=2, naxioms=3, nrules=1, nested=False, disjoint=False):
+    def __init__(self, rng, nconstr=2, naxioms=3, nrules=1, nested=False, disjoint=False, nsugar=0):
         self.r = rng
         self.constr = [('\\imp', 2)] + [(f'\\c{i}', rng.choice([0, 1, 2, 1])) for i in range(nconstr)]
+        # declared notations: \nK p0 .. := rhs over (a subset of) the parameters and the earlier constructors
+        self.sugar = {}
+        for i in range(nsugar):
+            ar = rng.choice([1, 2, 3])
+            ps = VARS[:ar]
+            keep = [p for p in ps if rng.random() < 0.75] or [ps[-1]]      # some notations ignore an argument
+            self.sugar[f'\\n{i}'] = (ar, self.term(2, keep))
+            self.constr.append((f'\\n{i}', ar))
         self.nested, self.disjoint = nested, disjoint
         self.assertions = {}      # label -> (vars in db order, [hyp terms], concl term)
         self.dv = {}              # label -> list of disjoint pairs (chosen when the text is produced)
@@ -140,13 +148,15 @@ class Gen:
 
     # ---- text
     def preamble(self):
-        consts = ['#Pattern', '|-', '(', ')'] + [c for c, _ in self.constr]
+        consts = ['#Pattern', '|-', '(', ')'] + [c for c, _ in self.constr] + (['#Notation'] if self.sugar else [])
         out = ['$c ' + ' '.join(consts) + ' $.', '$v ' + ' '.join(VARS) + ' $.']
         if self.global_d:        # growing top-level disjointness lists
             out += ['$d ph0 ph1 $.', '$d ph2 ph3 $.', '$d ph0 ph1 ph2 ph3 $.']
         out += [f'{v}-is-pattern $f #Pattern {v} $.' for v in VARS]
         for c, a in self.constr:
             out.append(f'{c[1:]}-is-pattern $a #Pattern ' + show((c,) + tuple(VARS[:a])) + ' $.')
+            if c in self.sugar:
+                out.append(f'{c[1:]}-is-sugar $a #Notation ' + show((c,) + tuple(VARS[:a])) + ' ' + show(self.sugar[c][1]) + ' $.')
         return out
 
     def assertion_text(self, label, kw='$a', proof=None):
